@@ -103,6 +103,48 @@ def cxxio_pass(prop, tier, seed):
     return viols, obs, obs["cxx_cases"]
 
 
+def rt_pass(prop, tier, seed):
+    """C08, real-clock cross-check of the virtual-time engine (src/rt.c): real clock, real kernel, children that
+    live a given number of ms. Lower bounds are judged; a result later than bound + 1.5 s only counts as slow."""
+    import os
+    import shutil
+    from concurrent.futures import ThreadPoolExecutor
+    vchild = build.build_vchild()
+    binp = build.build_rt("asan")
+    env = dict(os.environ)
+    env.update(core.SAN_ENV)
+    nw = 8
+    root = os.path.join(core.BUILD, "run", "rt.%d" % os.getpid())
+    os.makedirs(root, exist_ok=True)
+
+    def work(w):
+        return core.run_timed([binp, vchild, os.path.join(root, "w%d" % w), str(w), str(nw), tier, str(seed)], env,
+                              700 if tier == "quick" else 3300)
+    with ThreadPoolExecutor(nw) as ex:
+        outs = list(ex.map(work, range(nw)))
+    shutil.rmtree(root, ignore_errors=True)
+    names = ["rt_cases", "rt_violations", "rt_waits", "rt_polls", "rt_stops", "rt_lower_bounds_checked", "rt_slow",
+             "rt_timeouts", "rt_statuses", "rt_deadline_events", "rt_badtargets"]
+    obs = {n: 0 for n in names}
+    viols = []
+    for rc, out, err in outs:
+        if rc in (124, 142):   # wall-clock limit / the harness's own alarm
+            obs["harness_timeouts"] = obs.get("harness_timeouts", 0) + 1
+        elif rc not in (0, 1):
+            kind = "asan" if "AddressSanitizer" in err else "ubsan" if "runtime error" in err else "crash"
+            viols.append((prop, "%s/rt/%s" % (prop, kind), "real-clock harness died rc=%d: %s" % (rc, err[-500:]), {"seed": seed, "module": "rt"}, [err[-2000:]]))
+        for line in out.splitlines():
+            f = line.split("\t")
+            if f[0] == "V" and len(f) >= 4:
+                viols.append((prop, "%s/rt/%s" % (prop, f[1]), "%s [%s, real clock]" % (f[3], f[2]), {"seed": seed, "module": "rt", "case": f[2]}, [line[:400]]))
+            elif f[0] == "S":
+                for n, v in zip(names, [int(x) for x in f[1:]]):
+                    obs[n] += v
+            elif f[0] == "I":
+                obs["rt_setup_failures"] = obs.get("rt_setup_failures", 0) + 1
+    return viols, obs, obs["rt_cases"]
+
+
 def stress_pass(prop, tier, seed):
     """C02, real-concurrency half: free-running children with random chunking and micro-sleeps, reader and writer
     threads per child, several children at once, under ASan+UBSan (src/mt.c, the C20 harness, built with ASan)."""
@@ -188,9 +230,13 @@ CHECKS = {
         "(thorough: complete kinds^n x timeout grid for n<=3, sampled beyond; quick: complete for n<=2 + sample) with "
         "timeouts {0,20,60,200,INFINITE} and child output/exit placed before/between/after the bounds, plus a complete "
         "reproc_wait grid timeout x deadline x exit time; exact virtual return times compared with "
-        "min(timeout, earliest deadline); non-trivial = a poll/wait was compared; distinct = (source kinds in order, timeout, activity)",
+        "min(timeout, earliest deadline); plus a real-clock cross-check of the virtual-time harness (src/rt.c: waits, polls and stop escalation "
+        "against children that live 5-2000 ms of real time; lower bounds only); non-trivial = a poll/wait was compared; distinct = (source kinds in order, timeout, activity)",
         {"polls_checked": 2500, "expired_deadline_polls": 300, "deadline_events": 120, "timeouts": 200,
-         "wait_timeouts": 100, "expected_hangs": 10}, assumptions=KERNEL_TRUST),
+         "wait_timeouts": 100, "expected_hangs": 10, "rt_cases": 300, "rt_lower_bounds_checked": 300,
+         "rt_timeouts": 80, "rt_statuses": 40, "rt_deadline_events": 10},
+        assumptions=KERNEL_TRUST + ["the real-clock pass (480 cases; thorough 2400) judges lower bounds only - not earlier than a timeout or deadline, no status or exit event before the child can have ended; results later than bound + 1.5 s are counted as slow (machine load), never as violations"],
+        extra=rt_pass),
     "C09": scen_check(
         [("eng_poll", "asan"), ("eng_poll", "asan-nd", {"tiers": ["thorough"]}), ("eng_poll", "plain", {"tiers": ["thorough"], "limit": 300,
                               "prefix": ["valgrind", "-q", "--error-exitcode=99", "--num-callers=12"]})], "exploration",
